@@ -206,16 +206,6 @@ func expiryScripts() [][]Step {
 	return res
 }
 
-func nWaiters(ops []Step) int {
-	n := 0
-	for _, o := range ops {
-		if o.Op == "start" {
-			n++
-		}
-	}
-	return n
-}
-
 func hasShort(ops []Step) bool {
 	for _, o := range ops {
 		if o.E == "short" {
